@@ -20,7 +20,7 @@ MANIFEST = {
     'technique': 'runtime monitoring: offline checker over recorded output (independent DDL reader) vs model-derived expectation',
 }
 LEVEL = 'exploration'
-BUDGET = {'quick': 40, 'thorough': 400}
+BUDGET = {'quick': 60, 'thorough': 400}
 RULE = ('databases from the exhaustive product {unique,not null,increment} x 11 defaults (every falsy value) x 6 type shapes '
         'in tables cycling through 6 pk layouts and public/other schema, the C01 column/index/header products and seeded '
         'random whole documents; each in parsed and API-built origin; a case = one database whose .sql is read back; '
